@@ -223,8 +223,8 @@ static const char *alpha_t[] = {
   "QUIT", "STAT", "RSET", "LAST", "NOOP", "XYZZY 1", "",
   "LIST", "LIST 0", "LIST 1", "LIST %n", "LIST %m", "LIST " HUGE1, "LIST x1",
   "UIDL", "UIDL 0", "UIDL 1", "UIDL %n", "UIDL %m", "UIDL " HUGE1, "UIDL -1",
-  "DELE 0", "DELE 1", "dele %n", "DELE %m", "DELE " HUGE1, "DELE", "DELE one",
-  "RETR 0", "RETR 1", "RETR %n", "retr %m", "RETR " HUGE1, "RETR junk",
+  "DELE 0", "DELE 1", "dele %n", "DELE %m", "DELE " HUGE1, "DELE", "DELE one", "DELE 1x",
+  "RETR 0", "RETR 1", "RETR %n", "retr %m", "RETR " HUGE1, "RETR junk", "RETR %n 0",
   "TOP 1 0", "TOP %n 1", "TOP %m 1", "TOP 1", "Top %n 2", "TOP 0 0", "TOP " HUGE1 " 0",
 };
 #define NALPHA ((int)(sizeof alpha_t / sizeof alpha_t[0]))
@@ -378,7 +378,7 @@ int main(int argc, char **argv) {
         if ((int)(id % nshards) != shard) continue;
         char c[16]; uint64_t v = k; for (int i = 0; i < len; i++) { c[i] = ca[v & 3]; v >>= 2; }
         ev_reset(); mf(&f[0], (k & 1) ? "new/m" : "cur/m:2,", c, len, 10, 10);
-        ev_line("RETR 1"); ev_line("TOP 1 0"); ev_line("TOP 1 1"); ev_line("TOP 1 2"); ev_line("TOP 1"); ev_line("LIST"); ev_line("QUIT");
+        ev_line("RETR 1"); ev_line("TOP 1 0"); ev_line("TOP 1 1"); ev_line("TOP 1 2"); ev_line("TOP 1"); ev_line("RETR 1 0"); ev_line("RETR 1 1"); ev_line("LIST"); ev_line("QUIT");
         one(1000, 1, f, 1);
       }
     }
@@ -402,6 +402,29 @@ int main(int argc, char **argv) {
       }
     }
 
+    /* (2b) what follows the message number: for every verb that takes a number, the number followed by junk,
+       by a space, by a second number, ... - after nothing / DELE 1 / DELE 2, followed by LIST and (or not) QUIT */
+    {
+      static const char *vb[] = { "DELE", "RETR", "TOP", "LIST", "UIDL" };
+      static const char *form[] = { "%s 1x", "%s 1 x", "%s 1 ", "%s 2 0", "%s %d 0", "%s 1x 0", "%s 1  2", "%s 01", "%s 1\t",
+                                    "%s 2abc", "%s 1 1x", "%s 1.", "%s 1-", "%s +1" };
+      static const char *pre[] = { 0, "DELE 1", "DELE 2" };
+      for (int pk = 0; pk < 5; pk++)
+        for (int v = 0; v < 5; v++)
+          for (int fo = 0; fo < (int)(sizeof form / sizeof form[0]); fo++)
+            for (int pr = 0; pr < 3; pr++)
+              for (int q = 0; q < 2; q++, id++) {
+                if ((int)(id % nshards) != shard) continue;
+                int nmsg; ev_reset(); int nf = population(pk, f, &nmsg);
+                char cmd[100];
+                if (fo == 4) snprintf(cmd, sizeof cmd, form[fo], vb[v], nmsg ? nmsg : 1); else snprintf(cmd, sizeof cmd, form[fo], vb[v]);
+                if (pre[pr]) ev_line(pre[pr]);
+                ev_line(cmd); ev_line("LIST");
+                if (q) ev_line("QUIT");
+                one(1000, 1, f, nf);
+              }
+    }
+
     /* (3) seeded random sessions: random maildirs, longer sequences, vanishing files, odd chunking */
     h_seed(seed * 1000003ull + shard);
     for (int r = 0; r < nrandom; r++) {
@@ -417,7 +440,8 @@ int main(int argc, char **argv) {
           static const char *vb[] = { "DELE", "RETR", "TOP", "LIST", "UIDL", "dele", "Retr" };
           const char *vbs = vb[h_below(7)];
           if (h_below(5) == 0) snprintf(cmd, sizeof cmd, "%s %u %u", vbs, 1 + h_below(nmsg), h_below(4));
-          else if (h_below(12) == 0) snprintf(cmd, sizeof cmd, "%s  %u%s", vbs, 1 + h_below(nmsg), h_below(2) ? "x" : " ");
+          else if (h_below(6) == 0) { static const char *tail[] = { "x", " ", " x", "abc", " 0x", "\t", "." };
+            snprintf(cmd, sizeof cmd, "%s %s%u%s", vbs, h_below(2) ? " " : "", 1 + h_below(nmsg), tail[h_below(7)]); }
           else snprintf(cmd, sizeof cmd, "%s %u", vbs, 1 + h_below(nmsg));
         } else snprintf(cmd, sizeof cmd, "%s", alpha[i == len - 1 && h_below(2) ? 0 : 1 + h_below(NALPHA - 1)]);
         if (mode == 0) { ev_line(cmd); if (nf && h_below(6) == 0) ev_vanish(f[h_below(nf)].path); }
